@@ -404,9 +404,10 @@ func (m *Markdown) renderInlineNode(w io.Writer, node ast.Node, src []byte) erro
 	case *ast.AutoLink:
 		url := string(n.URL(src))
 		label := string(n.Label(src))
-		href := url
+		// the destination of an autolink is percent-encoded like any other link destination
+		href := string(util.URLEscape([]byte(url), false))
 		if n.AutoLinkType == ast.AutoLinkEmail {
-			href = "mailto:" + url
+			href = "mailto:" + href
 		}
 		return m.renderTemplate(w, "autolink", map[string]any{
 			"href":  href,
